@@ -11,6 +11,7 @@ import ChiaModel.Drv.C13
 import ChiaModel.Drv.C16
 import ChiaModel.Drv.C15
 import ChiaModel.Drv.C17
+import ChiaModel.Drv.C18
 import ChiaModel.Drv.C19
 import ChiaModel.Drv.C20
 import ChiaModel.Spec.CostTable
@@ -38,6 +39,7 @@ def dispatch (line : String) : String :=
   | "C14" :: rest => C13.handle ("C14" :: rest)
   | "C15" :: rest => C15.handle ("C15" :: rest)
   | "C17" :: rest => C17.handle ("C17" :: rest)
+  | "C18" :: rest => C18.handle ("C18" :: rest)
   | "C19" :: rest => C19.handle ("C19" :: rest)
   | "C20" :: rest => C20.handle ("C20" :: rest)
   | ["C04", "ucc", op] =>
